@@ -343,7 +343,8 @@ int openssl_process_rsa(json_t *jwk, jwk_item_t *item)
 	if (alg) {
 		alg_str = json_string_value(alg);
 
-		if (alg_str[0] == 'P')
+		/* Not a string: jwk_process_values() reports it */
+		if (alg_str && alg_str[0] == 'P')
 			is_rsa_pss = 1;
 	}
 
